@@ -110,8 +110,9 @@ def buildParts (cfg : Cfg) (d : Nat) (p : Option HashParts) : Option (Option Nat
   | none => some none
   | some p => (Layer.buildHashFromParts cfg d p.d0h p.i p.j).map some
 
-/-- `Layer::neighbour` (no `check_hash` in the code): outer `none` = panic -/
+/-- `Layer::neighbour` (`check_hash` first, since the repair of finding F20): outer `none` = panic -/
 def neighbour (cfg : Cfg) (d hash : Nat) (dir : MW) : Option (Option Nat) :=
+  if hash ≥ Layer.nHash d then none else
   match Layer.decodeHash cfg d hash with
   | none => none
   | some p => buildParts cfg d (neighbourParts (Layer.nside d) p dir)
